@@ -56,6 +56,9 @@ func xmodPairs(p *Plan, threads int) [][]int {
 	small, big, dwarf, plain := -1, -1, -1, -1
 	for i, m := range p.Mods {
 		l := m.layout()
+		if m.Spec.Only != "" {
+			continue
+		}
 		if m.Spec.Dwarf != "" {
 			if dwarf < 0 || l.Len < p.Mods[dwarf].layout().Len {
 				dwarf = i
@@ -85,7 +88,7 @@ func xmodPairs(p *Plan, threads int) [][]int {
 	if dwarf >= 0 {
 		dl := p.Mods[dwarf].layout().Len
 		for i, m := range p.Mods {
-			if m.Spec.Dwarf != "" || i == small || i == big || m.layout().NF == 0 {
+			if m.Spec.Dwarf != "" || m.Spec.Only != "" || i == small || i == big || m.layout().NF == 0 {
 				continue
 			}
 			d := m.layout().Len - dl
